@@ -39,7 +39,11 @@ def _apply(variant: dict, root: str):
 def _run_variant(args):
     prop, variant, root = args
     try:
-        overlay = _apply(variant, root)
+        if variant.get("global"):
+            from .twins import overlay as _global
+            overlay = _global(root, variant["global"])
+        else:
+            overlay = _apply(variant, root)
         if overlay is None:
             return variant["id"], "skipped", None, ""
         mod = importlib.import_module(f"sa.props.{prop.lower()}")
@@ -60,6 +64,8 @@ def _run_variant(args):
 def run(prop: str, mod, rep: Report):
     mutants: List[dict] = list(getattr(mod, "MUTANTS", []))
     twins: List[dict] = list(getattr(mod, "TWINS", []))
+    twins += [dict(id=f"{prop}-GLOBAL-A", **{"global": "A"}, what="whole package re-printed by ast.unparse"),
+              dict(id=f"{prop}-GLOBAL-B", **{"global": "B"}, what="whole package re-printed with every function-local variable renamed")]
     R = rep.rule("SELFVAL", "seeded mutants are reported by the named rule; behaviour-preserving twins leave the verdict set unchanged")
     base = rep.verdict_set()
     from .repo import REPO_ROOT
